@@ -86,11 +86,11 @@ pub fn set_progress_event(k: usize) {
 
 /// A case that makes the real code block for ever (a std Mutex re-locked by its
 /// holder, a lost wakeup) must not hang the check: if no case finishes for
-/// `RXH_STALL_MS` (default 4000) the watchdog prints `<id>.<k> HANG` for the case
+/// `RXH_STALL_MS` (default 1500) the watchdog prints `<id>.<k> HANG` for the case
 /// being processed and ends the process with status 17; the runner re-submits
 /// the cases that had not been reached.
 fn spawn_watchdog() {
-  let limit = std::env::var("RXH_STALL_MS").ok().and_then(|v| v.parse().ok()).unwrap_or(4000u64);
+  let limit = std::env::var("RXH_STALL_MS").ok().and_then(|v| v.parse().ok()).unwrap_or(1500u64);
   std::thread::spawn(move || {
     let mut last = 0u64;
     let mut since = std::time::Instant::now();
